@@ -91,7 +91,7 @@ def rec_pairs(seed):
     pos = [(rng.uniform(-3, w + 2), rng.uniform(-3, h + 2)) for _ in range(rng.randint(1, 4))] + [(-20.0, 3.0)]
     r = rng.uniform(1.0, 3.5)
     method = rng.choice(['exact', 'center', 'subpixel'])
-    sub = rng.choice([2, 5])
+    sub = rng.choice([1, 2, 5])          # subpixels = 1 is documented as ignored unless method = 'subpixel'
     ap = [A.CircularAperture(pos, r), A.EllipticalAperture(pos, r, r * 0.5, theta=0.9), A.RectangularAnnulus(pos, r * 0.6, r * 1.4, r)][seed % 3]
     bk = np.array([rng.choice([0.0, 1.5, -2.0]) for _ in pos]) if rng.random() < 0.5 else None
     out = []
@@ -118,6 +118,17 @@ def rec_pairs(seed):
         one = [A.ApertureStats(d, ap[k], error=e, mask=m, sum_method=method, subpixels=sub, local_bkg=None if bk is None else float(bk[k])) for k in range(len(pos))]
         for name in ('mean', 'median', 'max', 'xcentroid', 'biweight_location', 'mad_std', 'semimajor_sigma'):
             pair(f'list_equals_single:{name}', getattr(st, name), [getattr(o, name) for o in one], tol=2)
+        # the order in which properties are first read does not matter (two fresh objects, opposite orders)
+        names = [n for n in st.properties if n not in ('sky_centroid', 'sky_centroid_icrs', 'isscalar', 'n_apertures', 'data_cutout', 'error_cutout',
+                                                        'covariance', 'covariance_eigvals', 'inertia_tensor', 'moments', 'moments_central', 'bbox',
+                                                        'cutout_centroid', 'data_sumcutout', 'error_sumcutout', 'centroid', 'id', 'ids')]
+        fwd = A.ApertureStats(d, ap, error=e, mask=m, sum_method=method, subpixels=sub, local_bkg=bk)
+        rev = A.ApertureStats(d, ap, error=e, mask=m, sum_method=method, subpixels=sub, local_bkg=bk)
+        vf = {n: getattr(fwd, n) for n in names}
+        vr = {n: getattr(rev, n) for n in reversed(names)}
+        for n in ('min', 'max', 'mean', 'median', 'std', 'sum', 'mad_std', 'gini', 'mode', 'biweight_location', 'xcentroid'):
+            if n in vf:
+                pair(f'independent_of_property_read_order:{n}', vf[n], vr[n], tol=1)
         # sky aperture = its pixel image
         wc = WCS(naxis=2); wc.wcs.crpix = [w / 2, h / 2]; wc.wcs.cdelt = [-1.0 / 3600, 1.0 / 3600]; wc.wcs.crval = [80.0, 10.0]; wc.wcs.ctype = ['RA---TAN', 'DEC--TAN']
         sc = wc.pixel_to_world([p[0] for p in pos[:-1]], [p[1] for p in pos[:-1]])
